@@ -647,6 +647,25 @@ def eval_c18(ctx, tr, finished):
             ctx.check('C18.unsubscribed', not left, left=left)
 
 
+def eval_c13(ctx, tr):
+    # tree scenarios with a history limit (cfg observe_history): after every accepted dispatch the history respects the limit and no
+    # event that is still in flight on that bus (accepted there, its handlers there not all finished, by the harness's own records)
+    # has been evicted while a completed one is kept
+    hist = ctx.cfg.get('max_history') or {}
+    for o in tr.OBS:
+        if o.name != 'after_dispatch' or o.f.get('bus') not in hist or hist[o.bus] is None:
+            continue
+        N = hist[o.bus]
+        ctx.check('C13.bound_after_step', o.hist_len <= N, bus=o.bus, hist=o.hist, N=N)
+        kept = dict(o.hist)
+        if any(s == 'completed' for s in kept.values()):
+            missing = [r.ev for r in tr.DR if r.bus == o.bus and r.seq < o.seq and r.ev not in kept and ctx.expected(o.bus, r.ev)
+                       and not tr.handlers_done(r.ev, o.seq, [(o.bus, n) for n in ctx.expected(o.bus, r.ev)])]
+            ctx.check('C13.order_live', not missing, bus=o.bus, missing=missing, kept=o.hist,
+                      why='an event still in flight on this bus was evicted while completed ones were kept')
+            ctx.witness('history trimmed')
+
+
 def evaluate(ctx, finished):
     tr = Trace(ctx.records)
     tag_paths(ctx, tr)
@@ -670,5 +689,6 @@ def evaluate(ctx, finished):
     eval_c16(ctx, tr)
     eval_c15(ctx, tr)
     eval_c18(ctx, tr, finished)
+    eval_c13(ctx, tr)
     ctx.check('GEN.main_finished', bool(finished))
     return tr
